@@ -27,6 +27,15 @@ checks = {
  "C09": dict(cat="exploration", tech="deterministic simulation; forwarding headers at the recording back-end vs simulated peer addresses",
    text="Both protocols through the real listener->TLS->net/http / h2 chain with IPv4/IPv6 simulated peers and client-supplied Forwarded / X-Forwarded-* lines; the back-end's view is compared with what the simulator knows about the peer.",
    note="Peer addresses are simulated TCPAddr values.", ref="7/C09"),
+ "C10": dict(cat="fault_enumeration", tech="deterministic simulation with enumerated fault injection (every byte offset / I/O operation index / callback occurrence of two fixed sessions) + seeded random fault and garbage runs; process liveness + control clients as oracle",
+   text="Enumerates, over a fixed HTTP/1.1 and a fixed HTTP/2 session, a client disconnect (FIN and RST) after every byte offset, a read / write / deadline error at every I/O operation index of the proxy side of the connection, and a panic at every occurrence of every user callback reachable from the connection goroutine; plus seeded random runs with raw garbage, plain HTTP, mutated / truncated / random HTTP/2 frame bytes and HTTP/1.1 garbage inside real TLS sessions. After (and next to) each faulty connection control clients must be served with correct fingerprints; a worker process killed by the system under test is re-run alone at the announced case and reported as the violation.",
+   note="exhaustive only over the two fixed sessions (thorough tier); quick tier samples every 7th index. Allocation failures and real syscall failures are not injectable.", ref="7/C10"),
+ "C11": dict(cat="fault_enumeration", tech="deterministic simulation with enumerated aborts / stalls / idle periods under a simulated clock; goroutine census at quiescence as oracle",
+   text="Enumerates a client abort (FIN and RST) at every byte offset of a fixed HTTP/1.1 and HTTP/2 session, a silent stall at every byte offset of the handshake for two handshake timeouts, and an idle period after served requests for two idle timeouts on both protocols, all through the real flag wiring and the simulated clock; plus seeded random runs with 1-8 connections of mixed kinds in parallel. Oracle: the proxy closed its side of every connection, the goroutine census (stable at quiescence) shows nothing still serving a connection, stalled handshakes are cut at the handshake timeout (not earlier), idle connections at the idle timeout on both protocols.",
+   note="'eventually' is bounded at 217 simulated seconds after the last client went away. Census matches goroutines by function names (serveConn, http2 serverConn, net/http conn, persistConn, channel-listener send).", ref="7/C11"),
+ "C16": dict(cat="exploration", tech="deterministic simulation of mixed connection outcomes; metric registry compared with the outcome multiset",
+   text="1-8 concurrent connections with every outcome (h2, http/1.1, no ALPN, plain HTTP, garbage, stalls, handshake timeout, aborts during / after the handshake and mid-request, idle keep-alive) and controller-chosen completion order; fingerproxy_requests_total gathered from the real registry must equal the multiset implied by the outcomes, sum to the number of ended connections, and never run ahead of ended connections at intermediate quiescent points.",
+   note="A client that aborts right after a TLS 1.3 handshake cannot know whether the server side completed; such connections are admitted with either label (the sum stays exact).", ref="7/C16"),
  "C15": dict(cat="exploration", tech="deterministic simulation; routing oracle (exactly one of local answer / back-end record)",
    text="User-Agent variants x methods x protocols x probe flag through the real flag wiring; each request must be answered locally or seen by the back-end, never both or neither, according to the prefix predicate.",
    note="HTTP/1.1 strips optional whitespace around field values before the predicate applies; the oracle accounts for that.", ref="7/C15"),
